@@ -4,7 +4,7 @@ spec/DriverProc.tla is the concurrent model of buildobj()/buildexe(): the driver
 holder sets, files.  TLC chooses pipeline shape, output mode, and the program of every child (exit0, exit 1 before
 reading / after half of the output / after everything, death by signal at any moment, spawn failure), explores all
 interleavings, checks the safety invariants of C18 (and, in a second run, liveness under weak fairness) and prints
-one VCASE per terminal state: configuration, order of child terminations, exit status, surviving files, link started.
+one VCASE per terminal state: configuration, stages that had exited 0 before the first failure, exit status, surviving files, link started.
 
 Flow A.  Every configuration is realised on the REAL driver (driver.c + util.c built against stub tools, see
 drvlib.py / vstub.c): each stage gets a script derived from its program and from the termination order of a TLC
@@ -59,20 +59,7 @@ def classes_of(cases):
         g = by.setdefault(key, {"cfg": c["cfg"], "outcomes": set(), "required": set(), "early": set()})
         g["outcomes"].add((c["exit"], tuple(sorted(c["files"])), c["link"]))
         g["required"].add((c["exit"], tuple(sorted(c["required_files"])), c["link"]))
-        fin = c["cfg"]["fin"]
-        if fin:
-            # stages of the failing input that had exited 0 before the first stage failed on its own
-            early, seen_fail = [], False
-            for (k, s, how) in c["order"]:
-                if k != fin:
-                    continue
-                if how != "exit0" and how != "TERM":
-                    seen_fail = True
-                if how == "exit0" and not seen_fail:
-                    early.append(s)
-            g["early"].add(tuple(sorted(early)))
-        else:
-            g["early"].add(())
+        g["early"].add(tuple(sorted(c["early"])))
     return by
 
 
@@ -186,7 +173,7 @@ class FlowA:
         beh = {k: re.sub(r"@(\w+)@", lambda mm: ("cproc-qbe" if mm.group(1) == "cc" else self.b.tool[mm.group(1)]), v)
                for k, v in beh.items()}
         files = {n: "[%s]" % n for n, _ in inputs}
-        return dict(triple=TRIPLE, files=files, argv=argv, beh=beh, missing=tuple(missing), timeout=8.0,
+        return dict(triple=TRIPLE, files=files, argv=argv, beh=beh, missing=tuple(missing), timeout=5.0,
                     tag=tag, stdin=b""), inputs
 
     def judge(self, g, inputs, obs):
@@ -229,6 +216,9 @@ class FlowA:
                         tasks.append(t[0])
                         meta.append((g, early, scale, sig, gi + ei, t[1]))
         for obs in self.pool.map(tasks, chunksize=2):
+            if len(ctx.violations) >= 6:
+                ctx.cov["stopped_early"] = "after %d violations" % len(ctx.violations)
+                break
             g, early, scale, sig, variant, inputs = meta[obs["tag"]]
             verdict, what, detail = self.judge(g, inputs, obs)
             if verdict == "bad":    # timing-dependent observation: report only if an immediate re-run repeats it
@@ -255,6 +245,229 @@ class FlowA:
         return self.nrun
 
 
+# ----------------------------------------------------------------------------------------------
+# Flow B: strace of the real driver -> events of Trace_DriverProc.tla
+_LINE = re.compile(r"^(\d+)\s+(.*)$")
+_RESUMED = re.compile(r"^<\.\.\. (\w+) resumed>(.*)$")
+_WSTAT = re.compile(r"\[\{(.*?)\}\]")
+
+
+def _calls(path):
+    """Yield (pid, name, args, ret) for every completed system call, in completion order."""
+    pending = {}
+    with open(path, errors="replace") as f:
+        for ln in f:
+            m = _LINE.match(ln.rstrip("\n"))
+            if not m:
+                continue
+            pid, rest = int(m.group(1)), m.group(2)
+            if rest.endswith("<unfinished ...>"):
+                pending[pid] = rest[:-len("<unfinished ...>")]
+                continue
+            r = _RESUMED.match(rest)
+            if r:
+                rest = pending.pop(pid, r.group(1) + "(") + r.group(2)
+            if rest.startswith("+++") or rest.startswith("---"):
+                continue
+            name = rest.split("(", 1)[0]
+            eq = rest.rfind(" = ")
+            ret = rest[eq + 3:].strip() if eq >= 0 else "?"
+            yield pid, name, rest[len(name):eq if eq >= 0 else None], ret
+
+
+def role_of(path):
+    base = os.path.basename(path)
+    if base == "cproc-qbe":
+        return "cc"
+    for r in ("cpp", "qbe", "as", "ld"):
+        if base.endswith(r):
+            return r
+    return base
+
+
+def trace_events(path, inputs):
+    """The driver's own system calls as events.  inputs: [(name, roles)] gives the stage number of a tool."""
+    calls = list(_calls(path))
+    driver = None
+    execs = {}                   # pid -> [(path, ok)]
+    for pid, name, args, ret in calls:
+        if name == "execve":
+            p = args.split('"')[1] if '"' in args else ""
+            execs.setdefault(pid, []).append((p, ret.startswith("0")))
+            if driver is None and p.endswith("/bin/cproc") and ret.startswith("0"):
+                driver = pid
+    if driver is None:
+        raise vlib.MachineryError("strace: driver execve not found in %s" % path)
+    ev = []
+    started = False
+    stage_of, cur, last_stage = {}, 0, 99
+    failed_spawn = set()
+    wend = None
+    ntmp, tmpname = 0, {}
+    outnames = {}
+    for k, (n, _r) in enumerate(inputs):
+        base = n.rsplit(".", 1)[0]
+        for ext in ("o", "s", "qbe"):
+            outnames[base + "." + ext] = "out%d" % (k + 1)
+    linkpid = None
+    for pid, name, args, ret in calls:
+        if pid != driver:
+            continue
+        if not started:
+            started = name == "execve" and ret.startswith("0") and "/bin/cproc" in args
+            continue
+        if name == "openat" and '"/tmp/cproc-' in args and "O_EXCL" in args and not ret.startswith("-1"):
+            ntmp += 1
+            tmpname[args.split('"')[1]] = "tmp%d" % ntmp
+            ev.append({"e": "Mkstemp"})
+        elif name in ("pipe2", "pipe") and ret.startswith("0"):
+            fds = re.findall(r"\d+", args.split("]")[0])
+            wend = int(fds[1])
+        elif name in ("clone3", "clone", "vfork", "fork") and not ret.startswith("-1"):
+            child = int(ret.split()[0])
+            ex = execs.get(child, [])
+            ok = any(o for _p, o in ex)
+            role = role_of(ex[-1][0]) if ex else "?"
+            if role == "ld":
+                linkpid = child
+                ev.append({"e": "SpawnLink", "ok": ok})
+                if not ok:
+                    failed_spawn.add(child)
+                continue
+            # which stage of which input: stage numbers increase within a pipeline
+            while True:
+                roles = inputs[cur - 1][1] if cur >= 1 else []
+                s = roles.index(role) + 1 if role in roles else 0
+                if cur >= 1 and s > last_stage:
+                    break
+                cur += 1
+                last_stage = 0
+                if cur > len(inputs):
+                    s = 0
+                    break
+            last_stage = s
+            if ok:
+                stage_of[child] = s
+            else:
+                failed_spawn.add(child)
+                wend = None
+            ev.append({"e": "Spawn", "stage": s, "ok": ok})
+        elif name == "close" and wend is not None and args.strip("() ") == str(wend) and ret.startswith("0"):
+            ev.append({"e": "CloseW"})
+            wend = None
+        elif name == "wait4" and not ret.startswith("-1"):
+            child = int(ret.split()[0])
+            if child in failed_spawn:
+                continue                     # posix_spawn() reaping the child whose exec failed
+            st = _WSTAT.search(args)
+            txt = st.group(1) if st else ""
+            status = "ok" if "WEXITSTATUS(s) == 0" in txt else ("sig" if "WIFSIGNALED" in txt else "exit1")
+            if child == linkpid:
+                ev.append({"e": "WaitLink", "status": status})
+            else:
+                ev.append({"e": "Wait", "stage": stage_of.get(child, 0), "status": status})
+        elif name == "kill":
+            target = int(args.strip("(").split(",")[0])
+            if not ("SIGTERM" in args):
+                ev.append({"e": "Kill", "stages": [-1]})
+            elif ev and ev[-1]["e"] == "Kill":
+                ev[-1]["stages"].append(stage_of.get(target, 0))
+            else:
+                ev.append({"e": "Kill", "stages": [stage_of.get(target, 0)]})
+        elif name in ("unlink", "unlinkat"):
+            p = args.split('"')[1] if '"' in args else "?"
+            mname = tmpname.get(p) or outnames.get(p) or ("exe" if p == "a.out" else "other:" + p)
+            if ev and ev[-1]["e"] == "Unlink":
+                ev[-1]["paths"].append(mname)
+            else:
+                ev.append({"e": "Unlink", "paths": [mname]})
+        elif name == "exit_group":
+            ev.append({"e": "Exit", "code": int(re.findall(r"\d+", args)[0])})
+    return ev
+
+
+def pad_cfg(cfg, max_inputs=2, max_stages=4):
+    c = dict(cfg)
+    c["nst"] = (list(cfg["nst"]) + [1] * max_inputs)[:max_inputs]
+    c["ends"] = (list(cfg["ends"]) + ["exit0"] * max_stages)[:max_stages]
+    return c
+
+
+class FlowB:
+    def __init__(self, ctx, m, pool, fa):
+        self.ctx, self.m, self.pool, self.fa = ctx, m, pool, fa
+
+    def run(self, groups, n_traces):
+        ctx = self.ctx
+        keys = sorted(groups)
+        ctx.rng.shuffle(keys)
+        tdir = os.path.join(self.m.root, "traces")
+        os.makedirs(tdir, exist_ok=True)
+        tasks, meta = [], []
+        for i, key in enumerate(keys):
+            if len(tasks) >= n_traces:
+                break
+            g = groups[key]
+            earlies = sorted(g["early"])
+            early = earlies[i % len(earlies)]
+            t = self.fa.make_task(g, early, SCALES[0], (11, 9)[i % 2], i, len(meta))
+            if t is None:
+                continue
+            task, inputs = t
+            task["strace"] = os.path.join(tdir, "t%d.txt" % len(meta))
+            task["timeout"] = 12.0
+            tasks.append(task)
+            meta.append((g, early, inputs, task["strace"], task["argv"]))
+        execs = []
+        for obs in self.pool.map(tasks, chunksize=1):
+            g, early, inputs, spath, argv = meta[obs["tag"]]
+            if obs["rc"] == -999:
+                ctx.violation("c18:hang", "driver under strace did not exit", {"cfg": g["cfg"], "argv": argv})
+                continue
+            evs = trace_events(spath, inputs)
+            execs.append({"cfg": g["cfg"], "argv": argv, "early": list(early),
+                          "events": [{"e": "Reset", "cfg": pad_cfg(g["cfg"])}] + evs})
+        accepted = self.validate(execs)
+        ctx.cov["flowB_traces_accepted"] = accepted
+        ctx.cov["flowB_events"] = sum(len(x["events"]) for x in execs)
+        return accepted
+
+    def validate(self, execs):
+        """Concatenate executions into one trace; on rejection locate the execution, report, drop it, go on."""
+        ctx = self.ctx
+        accepted = 0
+        pending = list(execs)
+        rounds = 0
+        while pending and rounds < 6:
+            rounds += 1
+            path = os.path.join(self.m.root, "trace%d.ndjson" % rounds)
+            bounds = []
+            with open(path, "w") as f:
+                n = 0
+                for x in pending:
+                    for e in x["events"]:
+                        f.write(json.dumps(e) + "\n")
+                    n += len(x["events"])
+                    bounds.append(n)
+            r = ctx.tlc("Trace_DriverProc", "MC_Trace_DriverProc.cfg", workers=1, deque=True, env={"TRACE": path}, timeout=1200,
+                        heap="3g", collect="VREJECT ")
+            if r.ok:
+                accepted += len(pending)
+                break
+            if not r.vcases:
+                raise vlib.MachineryError("Trace_DriverProc: rejected without diagnostics:\n%s" % r.out[-3000:])
+            far = int(r.vcases[0])           # index (1-based) of the first event no path could consume
+            bad = next(i for i, b in enumerate(bounds) if far <= b) if far <= bounds[-1] else len(bounds) - 1
+            x = pending[bad]
+            start = bounds[bad - 1] if bad else 0
+            # re-check that execution alone (same rule as flow A: report what repeats)
+            ctx.violation("c18:trace", "system-call trace of the driver is not a behaviour of DriverProc (event %d of the execution)" % (far - start),
+                          {"cfg": x["cfg"], "argv": x["argv"], "events": x["events"], "rejected_at": far - start})
+            accepted += bad
+            pending = pending[bad + 1:]
+        return accepted
+
+
 def model_check(ctx, cfgname, workers, timeout=2400, heap="4g"):
     cases = []
     r = ctx.tlc("DriverProc", cfgname, workers=workers, timeout=timeout, heap=heap, on_line=lambda p: cases.append(json.loads(p)))
@@ -270,18 +483,34 @@ def run(ctx):
         m.build(TRIPLE)
         pool = drvlib.Pool(m, workers=12)
         ctx.cov["private_tmp_namespace"] = pool.private_tmp
+        # 2. (in the background) the repaired driver (deviations off) satisfies the strict invariants; liveness
+        #    under weak fairness: <>DriverExited
+        import threading
+        aux_err = []
+
+        def aux():
+            try:
+                ctx.tlc_must_pass("DriverProc", "MC_DriverProc_fixed.cfg", workers=4, timeout=1500)
+                ctx.tlc_must_pass("DriverProc", "MC_DriverProc_live.cfg" if ctx.quick else "MC_DriverProc_live_thorough.cfg",
+                                  workers=4, timeout=2400, heap="4g")
+            except Exception as ex:      # re-raised in the main thread
+                aux_err.append(ex)
+        th = threading.Thread(target=aux)
+        th.start()
         # 1. safety of the model with the deviations of the current code; terminal states = behaviour classes
-        r, cases = model_check(ctx, "MC_DriverProc_quick.cfg" if ctx.quick else "MC_DriverProc_thorough.cfg", workers=12 if ctx.quick else 16)
+        r, cases = model_check(ctx, "MC_DriverProc_quick.cfg" if ctx.quick else "MC_DriverProc_thorough.cfg", workers=10 if ctx.quick else 14)
         groups = classes_of(cases)
         ctx.cov["configurations"] = len(groups)
         ctx.cov["terminal_states"] = len(cases)
-        # 2. the repaired driver (deviations off) satisfies the strict invariants; liveness under weak fairness
-        ctx.tlc_must_pass("DriverProc", "MC_DriverProc_fixed.cfg", workers=8, timeout=1500)
-        ctx.tlc_must_pass("DriverProc", "MC_DriverProc_live.cfg", workers=8, timeout=1500, heap="4g")
         # 3. flow A
         fa = FlowA(ctx, m, pool)
         n = fa.run(groups, max_classes_per_cfg=2 if ctx.quick else 8)
-        ctx.validated(n)
+        fb = FlowB(ctx, m, pool, fa)
+        nb = fb.run(groups, n_traces=60 if ctx.quick else 500)
+        ctx.validated(n + nb)
+        th.join()
+        if aux_err:
+            raise aux_err[0]
         ctx.cov["rule"] = ("one class = (pipeline shape 1..%d stages x 1..2 inputs, output mode link/file/stdout, failing stage, failure mode, "
                            "set of stages that had finished before the failure) taken from the terminal states of DriverProc.tla; each class is "
                            "run on the real driver with two delay scales (and with SIGSEGV and SIGKILL for 'signal'); non-trivial = some stage "
